@@ -15,6 +15,16 @@ CLAIMED = {
             'correspondence of the Float interpretation with munition.py on random ammo incl. all four orderings.',
             'hand Lean model + theorems (field_simp/ring over R), bit-exact differential run, property-level search',
             '5 C17'),
+    'C19': ('Theorems over the hand model of Sight: clicks = correction / effective click for FFP/SFP/LWIR separately for elevation '
+            'and windage, linearity, sign, FFP independence of distance/magnification, constructor validation order. Tie: bit-exact '
+            'correspondence (constructor outcomes and click counts) on random sights with h != v clicks in every angular unit.',
+            'hand Lean model + theorems (ring over R), bit-exact differential run, property-level search',
+            '5 C19'),
+    'C13': ('Theorems over a heap model of quantity objects: magnitude/dimension invariant under every finite operation sequence '
+            '(induction), reads stable, comparisons = comparisons of raw magnitudes, foreign units always error (over the regenerated '
+            'chains), hash reads only the magnitude (regenerated read-set). Tie: op-by-op correspondence on random histories.',
+            'hand Lean heap model + induction over op lists, regenerated read-sets, differential run of histories',
+            '5 C13'),
 }
 NOT_APPLICABLE = {}
 TODO_REASON = 'check not built yet in this round (planned, see DESIGN.md section 5)'
